@@ -137,6 +137,27 @@ CHECKS["C16"] = dict(
     technique="TLA+ spec (graph as operator + invariant tying it to the generation machine) model-checked with TLC; exported graph compared with the implementation's",
 )
 
+CHECKS["C17"] = dict(
+    category="model_checking",
+    text="AtomGraph.tla defines the stochastic atom graph as an operator of the instance (nodes per atom with element / charge / aromaticity, static edges, and "
+         "stochastic / termination / transition edges between attachment atoms of compatible descriptors built from the same descriptor algebra as the generation "
+         "machine); TLC evaluates it per instance, checks NothingLeavesEndGroups and StaticSymmetric, and exports it; every node and edge (kind, order, weight, as "
+         "multisets per atom pair) is compared with Molecule.gen_stochastic_atom_graph().graph in both directions, with and without Schulz-Zimm distributions.",
+    design_ref="DESIGN.md 4/C17",
+    note="Trusted: TLC, RDKit token chemistry. Zero-weight non-static edges are ignored on both sides; termination edges out of a listed descriptor are admissible with free weight.",
+    technique="TLA+ spec (graph as operator of the instance) evaluated by TLC; exported graph compared edge by edge with the implementation's",
+)
+CHECKS["C18"] = dict(
+    category="model_checking",
+    text="AtomGen.tla validates every molecule generated by AtomGraph(sag, rng).generate() against the SPECIFICATION's atom graph: residue blocks are whole tokens with "
+         "exactly their internal bonds, every link is a non-static edge of the spec graph with its order, residues form a tree; one TLC state per molecule. Molecules "
+         "come from the complete choice tree under the scripted generator (incl. a quantile grid for the Schulz-Zimm draw) and from recorded random streams; termination by "
+         "time bound, equal seeds -> equal molecules, sanitisation and connectivity from RDKit.",
+    design_ref="DESIGN.md 4/C18",
+    note="Final states only (no step-wise trace of the atom-graph generator). Molecules without a start node are outside the statement. Trusted: TLC, RDKit.",
+    technique="TLA+ spec of the admissible result (AtomGen over AtomGraph) checked by TLC on recorded generated molecules (trace validation of final states)",
+)
+
 PENDING_REASON = "check not built yet in this round (design in DESIGN.md); no claim is made"
 
 
